@@ -4,7 +4,7 @@
    GcxsGetitem2dP.v (tail_nd, tail_eval, pat_nd/pat_rows/pat_cols, post) and GcxsNdL.v (rav, positions). *)
 From Coq Require Import ZArith List Bool Lia Sorting.Sorted Sorting.Permutation.
 From Verif Require Import Py PySlice Shape COO COOP GCXS Convert ConvertL ConvertG NpIndex CooIndex
-     CooIndexMaskP CooIndexNormP CooIndexP GcxsIndex GcxsIndexP GcxsGetitem GcxsGetitemP GcxsGetitem2dP GcxsNdL.
+     CooIndexMaskP CooIndexNormP CooIndexP CooIndexArrP GcxsIndex GcxsIndexP GcxsGetitem GcxsGetitemP GcxsGetitem2dP GcxsNdL GcxsNoneL.
 Import ListNotations.
 Open Scope Z_scope.
 
@@ -13,17 +13,28 @@ Definition entry_ok (e : nentry) (d : Z) : Prop :=
   match e with
   | NInt i => 0 <= i < d
   | NSlice s e' st => st <> 0 /\ forall x, In x (range_list s e' st) -> 0 <= x < d
-  | _ => False
+  | NArr l => forall x, In x l -> 0 <= x < d
+  | NNone => False
   end.
 
-Lemma nwf_nth : forall nix sh, nwf nix sh -> forallb not_none nix = true -> no_arr nix = true ->
+Lemma nwf_nth : forall nix sh, nwf nix sh -> forallb not_none nix = true ->
   forall k, (k < length nix)%nat -> entry_ok (nth k nix NNone) (nth k sh 0).
 Proof.
-  induction nix as [|e r IH]; intros sh Hwf Hno Hna k Hk; [simpl in Hk; lia|].
-  simpl in Hno, Hna. apply andb_true_iff in Hno, Hna. destruct Hno as [Hn1 Hno], Hna as [Ha1 Hna].
+  induction nix as [|e r IH]; intros sh Hwf Hno k Hk; [simpl in Hk; lia|].
+  simpl in Hno. apply andb_true_iff in Hno. destruct Hno as [Hn1 Hno].
   destruct e as [i|s e' st| |l]; try discriminate; (destruct sh as [|d sh']; [destruct Hwf|]).
   - destruct Hwf as [Hi Hwf]. destruct k as [|k]; [exact Hi|]. cbn [nth]. apply IH; auto. simpl in Hk. lia.
   - destruct Hwf as [Hst [Hr Hwf]]. destruct k as [|k]; [split; assumption|]. cbn [nth]. apply IH; auto. simpl in Hk. lia.
+  - destruct Hwf as [Hl Hwf]. destruct k as [|k]; [exact Hl|]. cbn [nth]. apply IH; auto. simpl in Hk. lia.
+Qed.
+
+Lemma sorted_strict_SS l : is_sorted_strict l = true -> StronglySorted Z.lt l.
+Proof.
+  induction l as [|a r IH]; intros H; [constructor|].
+  destruct r as [|b r']; [repeat constructor|].
+  cbn [is_sorted_strict] in H. apply andb_true_iff in H. destruct H as [Hab H]. apply Z.ltb_lt in Hab.
+  specialize (IH H). constructor; [exact IH|]. inversion IH as [|? ? Hs Hall]; subst.
+  constructor; [exact Hab|]. eapply Forall_impl; [|exact Hall]. intros x Hx. simpl in Hx. lia.
 Qed.
 
 Lemma list_as_map {A} (l : list A) d : l = map (fun a => nth (Z.to_nat a) l d) (zrange (Z.of_nat (length l))).
@@ -99,7 +110,9 @@ Section Resplit.
       /\ key' j = Z.of_nat m * Z.of_nat (length CL) + Z.of_nat cc
       /\ ckey (c_shape c) ca (gsrc j) = nth m RW 0 * col_size (c_shape c) ca + nth cc CL 0.
   Hypothesis H2 : (2 <= length sh')%nat.
-  Hypothesis Hkey : forall j, key' j = ckey sh' [0] j.
+  Variable caT : list Z.
+  Hypothesis HcaT : caxes_okb (Z.of_nat (length sh')) caT = true.
+  Hypothesis Hkey : forall j, key' j = ckey sh' caT j.
 
   Let Lo := Lout V c ca RW CL.
   Let keys := map fst (gsorted V c ca).
@@ -108,25 +121,22 @@ Section Resplit.
   Let ps := flat_map (rowsel keys cs CL) RW.
   Let ip1 := 0 :: cumsum_from 0 (map (fun r => Z.of_nat (length (rowsel keys cs CL r))) RW).
 
-  Lemma resplit :
-    mkGCXS sh' [0] (map snd Lo) (map (fun k => k mod size (tl sh')) (map fst Lo))
-           (indptr_of (map (fun k => k / size (tl sh')) (map fst Lo)) (hd 0 sh')) (c_fill c)
-    = gcxs_from_coo y [0].
-  Proof using Hc Hca Hy_can Hy_sh Hy_fill Hy_ent Hok' BR2 BR3 H2 Hkey.
-    pose proof (master_gsorted V c ca Hc Hca RW CL sh' gsrc y Hy_can Hy_sh Hy_ent key' BR2 BR3 [0] (caxes0_ok sh' H2) Hkey) as Hg.
+  (* the record of from_coo, read off the sorted key list of the selected elements *)
+  Lemma resplit_gen :
+    mkGCXS sh' caT (map snd Lo) (map (fun k => k mod col_size sh' caT) (map fst Lo))
+           (indptr_of (map (fun k => k / col_size sh' caT) (map fst Lo)) (row_size sh' caT)) (c_fill c)
+    = gcxs_from_coo y caT.
+  Proof using Hc Hca Hy_can Hy_sh Hy_fill Hy_ent Hok' BR2 BR3 H2 HcaT Hkey.
+    pose proof (master_gsorted V c ca Hc Hca RW CL sh' gsrc y Hy_can Hy_sh Hy_ent key' BR2 BR3 caT HcaT Hkey) as Hg.
     fold Lo in Hg.
     assert (Hok_y : shape_ok (c_shape y)) by (rewrite Hy_sh; exact Hok').
-    assert (Hca_y : caxes_okb (Z.of_nat (length (c_shape y))) [0] = true) by (rewrite Hy_sh; exact (caxes0_ok sh' H2)).
+    assert (Hca_y : caxes_okb (Z.of_nat (length (c_shape y))) caT = true) by (rewrite Hy_sh; exact HcaT).
     assert (Hnd_y : (2 <= length (c_shape y))%nat) by (rewrite Hy_sh; exact H2).
-    rewrite (from_coo_nf V y [0] Hok_y Hca_y Hnd_y). rewrite Hg, Hy_sh, Hy_fill.
-    assert (Hcs : col_size sh' [0] = size (tl sh')).
-    { unfold col_size. rewrite reordered_shape_0 by lia. destruct sh'; reflexivity. }
-    assert (Hrs : row_size sh' [0] = hd 0 sh').
-    { unfold row_size. destruct sh' as [|d t]; [simpl in H2; lia|]. cbn [map znth nth hd]. change (Z.to_nat 0) with 0%nat. cbn [nth]. unfold size. simpl. lia. }
+    rewrite (from_coo_nf V y caT Hok_y Hca_y Hnd_y). rewrite Hg, Hy_sh, Hy_fill.
     f_equal.
-    - rewrite map_map. apply map_ext. intros p. unfold colf. rewrite Hy_sh, Hcs. reflexivity.
-    - rewrite Hrs. f_equal. rewrite map_map. apply map_ext_in. intros p Hp. rewrite <- Hg in Hp.
-      destruct (rowf_colf V y [0] Hy_can Hok_y Hca_y p Hp) as [_ [E _]]. rewrite E, Hy_sh, Hcs. reflexivity.
+    - rewrite map_map. apply map_ext. intros p. unfold colf. rewrite Hy_sh. reflexivity.
+    - f_equal. rewrite map_map. apply map_ext_in. intros p Hp. rewrite <- Hg in Hp.
+      destruct (rowf_colf V y caT Hy_can Hok_y Hca_y p Hp) as [_ [E _]]. rewrite E, Hy_sh. reflexivity.
   Qed.
 
   Lemma Lo_snd : map snd Lo = map (fun p : nat * nat => nth (fst p) data (c_fill c)) ps.
@@ -146,6 +156,14 @@ Section Resplit.
   Qed.
 End Resplit.
 
+Lemma col_size_0 sh' : (2 <= length sh')%nat -> col_size sh' [0] = size (tl sh').
+Proof. intros H2. unfold col_size. rewrite reordered_shape_0 by lia. destruct sh'; reflexivity. Qed.
+
+Lemma row_size_0 sh' : (2 <= length sh')%nat -> row_size sh' [0] = hd 0 sh'.
+Proof.
+  intros H2. unfold row_size. destruct sh' as [|d t]; [simpl in H2; lia|]. cbn [map znth nth hd]. change (Z.to_nat 0) with 0%nat. cbn [nth]. unfold size. simpl. lia.
+Qed.
+
 Section Nd.
   Variable V : Type.
   Variable veqb : V -> V -> bool.
@@ -162,7 +180,7 @@ Section Nd.
   Variable nix : list nentry.
   Hypothesis Hwf : nwf nix sh.
   Hypothesis Hno : forallb not_none nix = true.
-  Hypothesis Hna : no_arr nix = true.
+  Hypothesis Hna : (n_arr nix <= 1)%nat.
 
   Lemma Hlen : length nix = n.
   Proof. apply (nwf_length nix sh Hwf Hno). Qed.
@@ -179,13 +197,14 @@ Section Nd.
 
   Lemma entry_axis a : In a axes -> entry_ok (E a) (S a).
   Proof.
-    intros Ha. apply zrange_In in Ha. unfold E, S, znth. apply (nwf_nth nix sh Hwf Hno Hna). rewrite Hlen. lia.
+    intros Ha. apply zrange_In in Ha. unfold E, S, znth. apply (nwf_nth nix sh Hwf Hno). rewrite Hlen. lia.
   Qed.
 
   Lemma W_bounds a x : In a axes -> In x (W a) -> 0 <= x < S a.
   Proof.
     intros Ha Hx. pose proof (entry_axis a Ha) as H. unfold W in Hx. destruct (E a); simpl in H, Hx; try contradiction.
     - destruct Hx as [<-|[]]. exact H.
+    - apply H. exact Hx.
     - apply H. exact Hx.
   Qed.
 
@@ -197,7 +216,8 @@ Section Nd.
   Lemma entry_len_L a : In a axes -> kept a = true -> entry_len (E a) = L a.
   Proof.
     intros Ha Hk. pose proof (entry_axis a Ha) as H. unfold kept in Hk. unfold L, W. destruct (E a); simpl in H; try contradiction; try discriminate.
-    cbn [entry_len key_vals]. apply slice_len_len. apply H.
+    - cbn [entry_len key_vals]. apply slice_len_len. apply H.
+    - reflexivity.
   Qed.
 
   Lemma W_SS a : In a axes -> pos_entry (E a) = true -> StronglySorted Z.lt (W a).
@@ -205,6 +225,7 @@ Section Nd.
     intros Ha Hp. pose proof (entry_axis a Ha) as H. unfold W. destruct (E a); simpl in H; try contradiction.
     - repeat constructor.
     - cbn [key_vals]. apply range_list_SS_lt. simpl in Hp. destruct H as [Hst _]. destruct (Z.ltb_spec st 0); [discriminate|lia].
+    - cbn [key_vals]. apply sorted_strict_SS. exact Hp.
   Qed.
 
   Lemma nix_map : nix = map E axes.
@@ -228,6 +249,9 @@ Section Nd.
     rewrite nix_map at 1. rewrite filter_map_comm, map_map. apply map_ext_in. intros a Ha.
     apply filter_In in Ha. apply entry_len_L; tauto.
   Qed.
+
+  Lemma K_len_filter : length K = length (filter (fun e => negb (is_nint e)) nix).
+  Proof. unfold K. symmetry. rewrite nix_map at 1. rewrite filter_map_comm, map_length. reflexivity. Qed.
 
   Lemma ca_range a : In a ca -> 0 <= a < Z.of_nat n.
   Proof. apply caxes_okb_spec in Hca. apply Hca. Qed.
@@ -394,38 +418,92 @@ Section Nd.
   Lemma E_slice a s e st : E a = NSlice s e st -> kept a = true /\ W a = range_list s e st /\ L a = Z.of_nat (length (range_list s e st)).
   Proof. intros H. unfold L, kept, W. rewrite H. repeat split; reflexivity. Qed.
 
-  Lemma out_shape_axes : forall axes', (forall a, In a axes' -> In a axes) ->
-    out_shape (map to_r (map E axes')) = map L (filter kept axes').
+  Lemma E_arr a l : E a = NArr l -> kept a = true /\ W a = l /\ L a = Z.of_nat (length l).
+  Proof. intros H. unfold L, kept, W. rewrite H. repeat split; reflexivity. Qed.
+
+  Definition arrf (a : Z) : bool := is_narr (E a).
+
+  (* no array left: the flags of out_shape_aux / src_aux do not matter *)
+  Lemma out_shape_axes_seen : forall axes' seen, (forall a, In a axes' -> In a axes) ->
+    (forall a, In a axes' -> arrf a = false) ->
+    out_shape_aux seen (map to_r (map E axes')) = map L (filter kept axes').
   Proof.
-    induction axes' as [|a r IH]; intros Hin; [reflexivity|].
-    pose proof (entry_axis a (Hin a (or_introl eq_refl))) as Ha. specialize (IH (fun b Hb => Hin b (or_intror Hb))).
-    cbn [map filter]. destruct (E a) as [i|s e st| |l] eqn:Ea; simpl in Ha; try contradiction.
-    - destruct (E_int a i Ea) as [Hk _]. rewrite Hk. cbn [to_r]. exact IH.
-    - destruct (E_slice a s e st Ea) as [Hk [_ HL]]. rewrite Hk. cbn [to_r map]. rewrite HL.
-      unfold out_shape in *. cbn [out_shape_aux]. rewrite IH. reflexivity.
+    induction axes' as [|a r IH]; intros seen Hin Hna'; [reflexivity|].
+    pose proof (entry_axis a (Hin a (or_introl eq_refl))) as Ha.
+    specialize (IH seen (fun b Hb => Hin b (or_intror Hb)) (fun b Hb => Hna' b (or_intror Hb))).
+    pose proof (Hna' a (or_introl eq_refl)) as Hn. unfold arrf in Hn.
+    cbn [map filter]. destruct (E a) as [i|s e st| |l] eqn:Ea; simpl in Ha; try contradiction; try discriminate.
+    - destruct (E_int a i Ea) as [Hk _]. rewrite Hk. cbn [to_r out_shape_aux]. exact IH.
+    - destruct (E_slice a s e st Ea) as [Hk [_ HL]]. rewrite Hk. cbn [to_r map out_shape_aux]. rewrite HL, IH. reflexivity.
   Qed.
 
-  Lemma src_axes (D : Z -> Z) : forall axes', (forall a, In a axes' -> In a axes) ->
+  Lemma src_axes_seen (D : Z -> Z) : forall axes' ao, (forall a, In a axes' -> In a axes) ->
+    (forall a, In a axes' -> arrf a = false) ->
     (forall a, In a axes' -> kept a = false -> D a = 0) ->
-    src_of (map to_r (map E axes')) (map D (filter kept axes')) = map (T D) axes'.
+    src_aux ao (map to_r (map E axes')) (map D (filter kept axes')) = map (T D) axes'.
   Proof.
-    induction axes' as [|a r IH]; intros Hin H0; [reflexivity|].
+    induction axes' as [|a r IH]; intros ao Hin Hna' H0; [reflexivity|].
     pose proof (entry_axis a (Hin a (or_introl eq_refl))) as Ha.
-    specialize (IH (fun b Hb => Hin b (or_intror Hb)) (fun b Hb => H0 b (or_intror Hb))).
-    pose proof (H0 a (or_introl eq_refl)) as H0a.
-    cbn [map filter]. destruct (E a) as [i|s e st| |l] eqn:Ea; simpl in Ha; try contradiction.
-    - destruct (E_int a i Ea) as [Hk HW]. rewrite Hk. cbn [to_r]. unfold src_of in *. cbn [src_aux]. rewrite IH. change (T D a) with (zat (W a) (D a)).
+    specialize (IH ao (fun b Hb => Hin b (or_intror Hb)) (fun b Hb => Hna' b (or_intror Hb)) (fun b Hb => H0 b (or_intror Hb))).
+    pose proof (H0 a (or_introl eq_refl)) as H0a. pose proof (Hna' a (or_introl eq_refl)) as Hn. unfold arrf in Hn.
+    cbn [map filter]. destruct (E a) as [i|s e st| |l] eqn:Ea; simpl in Ha; try contradiction; try discriminate.
+    - destruct (E_int a i Ea) as [Hk HW]. rewrite Hk. cbn [to_r src_aux]. rewrite IH. change (T D a) with (zat (W a) (D a)).
       rewrite HW, (H0a Hk). reflexivity.
-    - destruct (E_slice a s e st Ea) as [Hk [HW _]]. rewrite Hk. cbn [to_r map]. unfold src_of in *. cbn [src_aux hd tl]. rewrite IH.
+    - destruct (E_slice a s e st Ea) as [Hk [HW _]]. rewrite Hk. cbn [to_r map src_aux hd tl]. rewrite IH.
       change (T D a) with (zat (W a) (D a)). rewrite HW. reflexivity.
   Qed.
 
+  Lemma filter_nil_all {A} (p : A -> bool) l : filter p l = [] -> forall a, In a l -> p a = false.
+  Proof.
+    intros H a Ha. destruct (p a) eqn:E; [|reflexivity]. assert (In a (filter p l)) by (apply filter_In; auto). rewrite H in H0. destruct H0.
+  Qed.
+
+  Lemma out_shape_axes : forall axes', (forall a, In a axes' -> In a axes) -> (length (filter arrf axes') <= 1)%nat ->
+    out_shape (map to_r (map E axes')) = map L (filter kept axes').
+  Proof.
+    unfold out_shape. induction axes' as [|a r IH]; intros Hin H1; [reflexivity|].
+    pose proof (entry_axis a (Hin a (or_introl eq_refl))) as Ha.
+    cbn [map filter]. cbn [filter] in H1. unfold arrf at 1 in H1.
+    destruct (E a) as [i|s e st| |l] eqn:Ea; simpl in Ha; try contradiction; cbn [is_narr] in H1.
+    - destruct (E_int a i Ea) as [Hk _]. rewrite Hk. cbn [to_r out_shape_aux]. apply IH; [intros b Hb; apply Hin; right; exact Hb|exact H1].
+    - destruct (E_slice a s e st Ea) as [Hk [_ HL]]. rewrite Hk. cbn [to_r map out_shape_aux]. rewrite HL, IH; [reflexivity|intros b Hb; apply Hin; right; exact Hb|exact H1].
+    - destruct (E_arr a l Ea) as [Hk [_ HL]]. rewrite Hk. cbn [to_r map out_shape_aux]. rewrite HL.
+      rewrite (out_shape_axes_seen r true); [reflexivity|intros b Hb; apply Hin; right; exact Hb|].
+      apply filter_nil_all. cbn [length] in H1. destruct (filter arrf r); [reflexivity|simpl in H1; lia].
+  Qed.
+
+  Lemma src_axes (D : Z -> Z) : forall axes', (forall a, In a axes' -> In a axes) -> (length (filter arrf axes') <= 1)%nat ->
+    (forall a, In a axes' -> kept a = false -> D a = 0) ->
+    src_of (map to_r (map E axes')) (map D (filter kept axes')) = map (T D) axes'.
+  Proof.
+    unfold src_of. induction axes' as [|a r IH]; intros Hin H1 H0; [reflexivity|].
+    pose proof (entry_axis a (Hin a (or_introl eq_refl))) as Ha.
+    pose proof (H0 a (or_introl eq_refl)) as H0a.
+    cbn [map filter]. cbn [filter] in H1. unfold arrf at 1 in H1.
+    destruct (E a) as [i|s e st| |l] eqn:Ea; simpl in Ha; try contradiction; cbn [is_narr] in H1.
+    - destruct (E_int a i Ea) as [Hk HW]. rewrite Hk. cbn [to_r src_aux].
+      rewrite IH; [|intros b Hb; apply Hin; right; exact Hb|exact H1|intros b Hb; apply H0; right; exact Hb].
+      change (T D a) with (zat (W a) (D a)). rewrite HW, (H0a Hk). reflexivity.
+    - destruct (E_slice a s e st Ea) as [Hk [HW _]]. rewrite Hk. cbn [to_r map src_aux hd tl].
+      rewrite IH; [|intros b Hb; apply Hin; right; exact Hb|exact H1|intros b Hb; apply H0; right; exact Hb].
+      change (T D a) with (zat (W a) (D a)). rewrite HW. reflexivity.
+    - destruct (E_arr a l Ea) as [Hk [HW _]]. rewrite Hk. cbn [to_r map src_aux hd tl].
+      rewrite (src_axes_seen D r); [|intros b Hb; apply Hin; right; exact Hb| |intros b Hb; apply H0; right; exact Hb].
+      + change (T D a) with (zat (W a) (D a)). rewrite HW. reflexivity.
+      + apply filter_nil_all. cbn [length] in H1. destruct (filter arrf r); [reflexivity|simpl in H1; lia].
+  Qed.
+
+  Lemma arrf_count : (length (filter arrf axes) <= 1)%nat.
+  Proof.
+    unfold n_arr in Hna. rewrite nix_map in Hna. rewrite filter_map_comm, map_length in Hna. exact Hna.
+  Qed.
+
   Lemma out_shape_nix : out_shape (map to_r nix) = sh'.
-  Proof. rewrite nix_map at 1. apply out_shape_axes. auto. Qed.
+  Proof. rewrite nix_map at 1. apply out_shape_axes; [auto|apply arrf_count]. Qed.
 
   Lemma src_nix D : (forall a, In a axes -> 0 <= D a < L a) -> src_of (map to_r nix) (map D K) = map (T D) axes.
   Proof.
-    intros HD. rewrite nix_map at 1. apply src_axes; [auto|]. intros a Ha Hk. specialize (HD a Ha). rewrite (L_int a Ha Hk) in HD. lia.
+    intros HD. rewrite nix_map at 1. apply src_axes; [auto|apply arrf_count|]. intros a Ha Hk. specialize (HD a Ha). rewrite (L_int a Ha Hk) in HD. lia.
   Qed.
 
   Lemma sh_map : sh = map S axes.
@@ -735,9 +813,9 @@ Section Nd.
       { pose proof K_nonempty. unfold sh' in *. rewrite map_length in *. destruct K as [|? [|? ?]]; simpl in *; try congruence; lia. }
       assert (Hk0 : forall D, (forall a, In a axes -> 0 <= D a < L a) -> ckey sh' [0] (map D K) = rav L D (filter kept (ca ++ rest))).
       { apply (Hkey_K (ckey sh' [0]) HK). intros j Hj. apply ckey_0; [lia|exact Hj]. }
-      pose proof (resplit V c ca Hc Hca RW CL sh' gsrc y Hy_can Hy_sh Hy_fill Hy_ent sh'_ok (ckey sh' [0])
-                    (BR2_nd _ Hk0) (BR3_nd _ Hk0) Hl2 (fun j => eq_refl)) as E.
-      rewrite Hfst in E. unfold sz. rewrite E.
+      pose proof (resplit_gen V c ca Hc Hca RW CL sh' gsrc y Hy_can Hy_sh Hy_fill Hy_ent sh'_ok (ckey sh' [0])
+                    (BR2_nd _ Hk0) (BR3_nd _ Hk0) Hl2 [0] (caxes0_ok sh' Hl2) (fun j => eq_refl)) as E.
+      rewrite (col_size_0 sh' Hl2), (row_size_0 sh' Hl2), Hfst in E. unfold sz. rewrite E.
       apply (post_from_coo V veqb add c y sh' gsrc _ Hy' sh'_ok). right. apply caxes0_ok. exact Hl2.
   Qed.
 
@@ -793,6 +871,273 @@ Section Nd.
     - apply branch_M; [rewrite Ekc; discriminate|rewrite Ekr; discriminate].
   Qed.
   End Branches.
+
+  (* ---------------------------------------------------------------- facts of the branches, for the None case *)
+  Lemma len2_M : kc <> [] -> kr <> [] -> (2 <= length sh')%nat.
+  Proof. intros H1 H2. unfold sh'. rewrite map_length, K_length. destruct kc; [contradiction|]. destruct kr; [contradiction|]. simpl. lia. Qed.
+
+  Lemma caxes_M : kc <> [] -> kr <> [] -> caxes_okb (Z.of_nat (length sh')) (map kpos kc) = true.
+  Proof.
+    intros H1 H2. unfold caxes_okb. rewrite !andb_true_iff. repeat split.
+    - destruct kc; [contradiction|reflexivity].
+    - apply Z.ltb_lt. rewrite map_length. unfold sh'. rewrite map_length, K_length. destruct kr; [contradiction|]. simpl. lia.
+    - apply NoDupb_NoDup. apply NoDup_map_in; [|apply NoDup_filter; apply caxes_okb_spec in Hca; apply Hca].
+      intros a b Ha Hb. apply index_of_inj; apply kc_K; assumption.
+    - apply forallb_forall. intros x Hx. apply in_map_iff in Hx. destruct Hx as [a [<- Ha]].
+      pose proof (index_of_bounds a K (kc_K a Ha)) as Hb. unfold sh'. rewrite map_length. unfold kpos. lia.
+  Qed.
+
+  Lemma rowsize_M : row_size sh' (map kpos kc) = Z.of_nat (length RW).
+  Proof.
+    unfold row_size. rewrite map_map. rewrite RW_len, <- size_kc. f_equal. apply map_ext_in. intros a Ha.
+    unfold sh'. apply (znth_index_of L a K 0 (kc_K a Ha)).
+  Qed.
+
+  Lemma colsize_M : col_size sh' (map kpos kc) = Z.of_nat (length CL).
+  Proof.
+    unfold col_size, reordered_shape.
+    assert (EO : axis_order (Z.of_nat (length sh')) (map kpos kc) = map kpos (kc ++ kr)).
+    { unfold sh'. rewrite map_length. pose proof (order_in_sublist K (fun a => mem_z a ca) K_NoDup) as EO. cbv zeta in EO.
+      rewrite K_split_c, K_split_r in EO. exact EO. }
+    rewrite EO, map_app, map_app. rewrite <- (map_length (fun a => znth sh' a 0) (map kpos kc)) at 1. rewrite skipn_app_exact.
+    rewrite map_map, CL_len, <- size_kr. f_equal. apply map_ext_in. intros a Ha.
+    unfold sh'. apply (znth_index_of L a K 0 (kr_K a Ha)).
+  Qed.
+
+  Lemma K_of_C : kr = [] -> kc ++ kr = K.
+  Proof. intros H2. rewrite H2, app_nil_r. rewrite <- K_split_c. apply filter_neg_nil. rewrite K_split_r. exact H2. Qed.
+
+  Lemma K_of_U : kc = [] -> kc ++ kr = K.
+  Proof. intros H1. rewrite H1. cbn [app]. rewrite <- K_split_r. apply filter_pos_nil. rewrite K_split_c. exact H1. Qed.
+
+  Lemma Hkey_0 : kc ++ kr = K -> (2 <= length sh')%nat ->
+    forall D, (forall a, In a axes -> 0 <= D a < L a) -> ckey sh' [0] (map D K) = rav L D (filter kept (ca ++ rest)).
+  Proof. intros HK Hl2. apply (Hkey_K (ckey sh' [0]) HK). intros j Hj. apply ckey_0; [lia|exact Hj]. Qed.
+
+  Lemma CL_single : kr = [] -> exists x, CL = [x].
+  Proof.
+    intros H2. apply length1. pose proof CL_len as Hl. rewrite <- size_kr in Hl. rewrite H2 in Hl. change (size (map L [])) with 1 in Hl. lia.
+  Qed.
+
+  Lemma RW_single : kc = [] -> exists r, RW = [r].
+  Proof.
+    intros H1. apply length1. pose proof RW_len as Hl. rewrite <- size_kc in Hl. rewrite H1 in Hl. change (size (map L [])) with 1 in Hl. lia.
+  Qed.
+
+  (* ---------------------------------------------------------------- None in the index *)
+  Section WithNone.
+  Variable key : list nentry.
+  Hypothesis Hkeyf : filter not_nnone key = nix.
+  Hypothesis Hnok : none_ok key = true.
+  Hypothesis Hk2 : (2 <= length K)%nat.
+  Hypothesis HnaK : (n_arr key <= 1)%nat.
+  Variable y : coo V.
+  Variable ix : index.
+  Hypothesis HyN : yfacts V c y (out_shape (map to_r key)) (src_of (map to_r key)).
+  Hypothesis HnN : normalize_index ix sh = Ok key.
+  Hypothesis HafN : all_full key sh = false.
+  Hypothesis HintN : forallb is_nint key = false.
+
+  Local Notation gsrcN := (src_of (map to_r key)).
+  Local Notation gsrc := (src_of (map to_r nix)).
+  Local Notation g := (gcxs_from_coo c ca).
+
+  Lemma kcnt_K : kcnt key = length sh'.
+  Proof.
+    rewrite kcnt_filter. rewrite Hkeyf.
+    unfold sh'. rewrite map_length. unfold K. rewrite nix_map at 1. rewrite filter_map_comm, map_length. reflexivity.
+  Qed.
+
+  Lemma Hl2' : (2 <= length sh')%nat.
+  Proof. unfold sh'. rewrite map_length. exact Hk2. Qed.
+
+  Definition shN : shape := weave key sh'.
+
+  Lemma shN_eq : out_shape (map to_r key) = shN.
+  Proof.
+    unfold out_shape. rewrite (out_shape_weave key false ltac:(discriminate) HnaK).
+    rewrite Hkeyf.
+    change (out_shape_aux false (map to_r nix)) with (out_shape (map to_r nix)). rewrite out_shape_nix. reflexivity.
+  Qed.
+
+  Lemma gsrcN_eq j : gsrcN j = gsrc (sqk key j).
+  Proof.
+    unfold src_of. rewrite (src_sqk key None j ltac:(intros H; contradiction) HnaK).
+    rewrite Hkeyf. reflexivity.
+  Qed.
+
+  Lemma shN_ok : shape_ok shN.
+  Proof.
+    unfold shN. generalize sh'_ok. generalize sh'. clear. intros s. revert s. unfold shape_ok.
+    induction key as [|e r IH]; intros s Hs; [exact Hs|].
+    assert (Ht : Forall (fun d => 0 <= d) (tl s)) by (destruct s; [constructor|inversion Hs; assumption]).
+    assert (Hh : 0 <= hd 0 s) by (destruct s; [simpl; lia|inversion Hs; assumption]).
+    destruct e; cbn [weave]; try (constructor; [first [exact Hh|lia]|]); apply IH; assumption.
+  Qed.
+
+  Lemma shN_len : (2 <= length shN)%nat.
+  Proof. pose proof (weave_length key sh' ltac:(rewrite kcnt_K; lia)) as H. pose proof Hl2'. unfold shN. lia. Qed.
+
+  (* the result for a target layout (sh', ca0) without None carries over to (shN, caN) *)
+  Section Target.
+  Variable ca0 : list Z.
+  Hypothesis Hca0 : caxes_okb (Z.of_nat (length sh')) ca0 = true.
+  Hypothesis Hkey0 : forall D, (forall a, In a axes -> 0 <= D a < L a) -> ckey sh' ca0 (map D K) = rav L D (filter kept (ca ++ rest)).
+  Variable caN : list Z.
+  Hypothesis ER : reinsert_none key 0 sh' ca0 = (shN, caN).
+
+  Lemma target_spec :
+    caxes_okb (Z.of_nat (length shN)) caN = true
+    /\ row_size shN caN = row_size sh' ca0 /\ col_size shN caN = col_size sh' ca0
+    /\ forall j, in_range shN j -> ckey shN caN j = ckey sh' ca0 (sqk key j).
+  Proof.
+    pose proof (reinsert_spec key [] sh' ca0 Hnok ltac:(rewrite kcnt_K; lia) Hca0) as H. cbv zeta in H.
+    cbn [length app] in H. rewrite ER in H. cbn [fst snd] in H. destruct H as [_ [H2 [H3 [H4 H5]]]].
+    split; [exact H2|]. split; [exact H3|]. split; [exact H4|]. intros j Hj. apply (H5 [] j eq_refl Hj).
+  Qed.
+
+  Lemma BR2_N : forall j, in_range shN j ->
+    exists m cc : nat, (m < length RW)%nat /\ (cc < length CL)%nat
+      /\ ckey shN caN j = Z.of_nat m * Z.of_nat (length CL) + Z.of_nat cc
+      /\ ckey sh ca (gsrcN j) = nth m RW 0 * col_size sh ca + nth cc CL 0.
+  Proof.
+    intros j Hj. destruct target_spec as [_ [_ [_ Hck]]].
+    destruct (BR2_nd (ckey sh' ca0) Hkey0 (sqk key j) (sqk_in_range key sh' j Hj)) as [m [cc [Hm [Hcc [Hk Hs]]]]].
+    exists m, cc. split; [exact Hm|]. split; [exact Hcc|]. split; [rewrite (Hck j Hj); exact Hk|rewrite gsrcN_eq; exact Hs].
+  Qed.
+
+  Lemma BR3_N : forall m cc : nat, (m < length RW)%nat -> (cc < length CL)%nat ->
+    exists j, in_range shN j /\ in_range sh (gsrcN j)
+      /\ ckey shN caN j = Z.of_nat m * Z.of_nat (length CL) + Z.of_nat cc
+      /\ ckey sh ca (gsrcN j) = nth m RW 0 * col_size sh ca + nth cc CL 0.
+  Proof.
+    intros m cc Hm Hcc. destruct target_spec as [_ [_ [_ Hck]]].
+    destruct (BR3_nd (ckey sh' ca0) Hkey0 m cc Hm Hcc) as [j0 [Hj0 [Hs0 [Hk Hs]]]].
+    destruct (unsqk_spec key sh' j0 ltac:(rewrite kcnt_K; lia) Hj0) as [HjN Esq].
+    exists (unsqk key j0). split; [exact HjN|]. rewrite gsrcN_eq, (Hck _ HjN), Esq. auto.
+  Qed.
+
+  Lemma HyN' : yfacts V c y shN gsrcN.
+  Proof. rewrite <- shN_eq. exact HyN. Qed.
+
+  Lemma post_N r : r = gcxs_from_coo y caN -> post V c shN gsrcN (Ok (GGArr r)).
+  Proof.
+    intros ->. destruct target_spec as [HcaN _].
+    apply (post_from_coo V veqb add c y shN gsrcN caN HyN' shN_ok). right. exact HcaN.
+  Qed.
+  End Target.
+
+  Lemma g_shape_eqN : g_shape g = sh. Proof. rewrite g_nf. reflexivity. Qed.
+  Lemma g_caxes_eqN : g_caxes g = ca. Proof. rewrite g_nf. reflexivity. Qed.
+  Lemma g_data_eqN : g_data g = map snd (gsorted V c ca). Proof. rewrite g_nf. reflexivity. Qed.
+  Lemma g_fill_eqN : g_fill g = c_fill c. Proof. rewrite g_nf. reflexivity. Qed.
+
+  Lemma reinsert_shape ca0 : caxes_okb (Z.of_nat (length sh')) ca0 = true ->
+    exists caN, reinsert_none key 0 sh' ca0 = (shN, caN).
+  Proof.
+    intros Hca0. pose proof (reinsert_spec key [] sh' ca0 Hnok ltac:(rewrite kcnt_K; lia) Hca0) as H. cbv zeta in H.
+    cbn [length app] in H. destruct H as [H1 _]. destruct (reinsert_none key 0 sh' ca0) as [s1 caN]. cbn [fst] in H1. subst s1.
+    exists caN. reflexivity.
+  Qed.
+
+  Ltac commonN :=
+    unfold gcxs_getitem_nd; rewrite g_shape_eqN, g_caxes_eqN, HnN; cbn [bind]; rewrite HafN, HintN;
+    rewrite Hkeyf; fold kl; rewrite shape0_eq;
+    fold axes; rewrite comp_eq, unc_eq; rewrite RW_eq, CL_eq, pos_eq, ca'_eq, rs1_eq;
+    replace (length (map L K) =? 0)%nat with false by (symmetry; apply Nat.eqb_neq; rewrite map_length; lia);
+    replace (length (map L K) =? 1)%nat with false by (symmetry; apply Nat.eqb_neq; rewrite map_length; lia);
+    rewrite andb_false_r.
+
+  Lemma shN_not1 : (length shN =? 1)%nat = false.
+  Proof. apply Nat.eqb_neq. pose proof shN_len. lia. Qed.
+
+  Lemma none_M : kc <> [] -> kr <> [] -> post V c shN gsrcN (gcxs_getitem_nd V g ix).
+  Proof.
+    intros H1 H2. destruct (reinsert_shape (map kpos kc) (caxes_M H1 H2)) as [caN ER].
+    assert (F : gcxs_getitem_nd V g ix
+                = tail_nd V g RW CL pos (fun _ => size (map L kc))
+                    (fun ps ip => GGArr (mkGCXS shN caN (dat' g ps) (ind' ps) ip (g_fill g)))).
+    { commonN.
+      assert (E1 : negb match filter kept ca with [] => true | _ :: _ => false end = true) by (fold kc; destruct kc; [contradiction|reflexivity]).
+      assert (E2 : negb match filter kept rest with [] => true | _ :: _ => false end = true) by (fold kr; destruct kr; [contradiction|reflexivity]).
+      rewrite !E1, !E2. cbv beta iota zeta. unfold sh', kc in ER. rewrite ER. rewrite shN_not1. reflexivity. }
+    rewrite F.
+    rewrite (tail_eval V c ca Hc Hok Hca Hnd RW CL pos HRW_nd HCL_nd Hpos_nd) by (cbv beta; rewrite RW_len; apply size_kc).
+    unfold dat', ind'. rewrite g_data_eqN, g_fill_eqN.
+    pose proof (HyN' ) as [Hy_sh [Hy_fill [Hy_can [Hy_den Hy_ent]]]].
+    destruct (target_spec (map kpos kc) (caxes_M H1 H2) caN ER) as [HcaN [Hrs [Hcs _]]].
+    apply (post_N (map kpos kc) (caxes_M H1 H2) caN ER).
+    apply (pat_nd V c ca Hc Hca RW CL shN gsrcN y Hy_can Hy_sh Hy_fill Hy_ent shN_ok (ckey shN caN)
+             (BR2_N (map kpos kc) (caxes_M H1 H2) Hkey_M caN ER) (BR3_N (map kpos kc) (caxes_M H1 H2) Hkey_M caN ER)
+             caN shN_len HcaN (fun j => eq_refl)).
+    - rewrite Hrs. apply rowsize_M.
+    - rewrite Hcs. apply colsize_M.
+  Qed.
+
+  (* compressed-only / uncompressed-only: the re-split record *)
+  Lemma none_0 (fst_list : list Z) ps' caN :
+    kc ++ kr = K ->
+    reinsert_none key 0 sh' [0] = (shN, caN) ->
+    map fst (Lout V c ca RW CL) = fst_list ->
+    ps' = flat_map (rowsel (map fst (gsorted V c ca)) (col_size sh ca) CL) RW ->
+    post V c shN gsrcN
+      (Ok (GGArr (mkGCXS shN caN (map (fun p : nat * nat => nth (fst p) (map snd (gsorted V c ca)) (c_fill c)) ps')
+                         (map (fun u => u mod sz) fst_list)
+                         (indptr_of (map (fun u => u / sz) fst_list) (hd 0 sh')) (c_fill c)))).
+  Proof.
+    intros HK ER Hfst Hps. subst ps'. rewrite <- (Lo_snd V c ca RW CL).
+    pose proof HyN' as [Hy_sh [Hy_fill [Hy_can [Hy_den Hy_ent]]]].
+    pose proof (caxes0_ok sh' Hl2') as Hca0.
+    destruct (target_spec [0] Hca0 caN ER) as [HcaN [Hrs [Hcs _]]].
+    apply (post_N [0] Hca0 caN ER).
+    pose proof (resplit_gen V c ca Hc Hca RW CL shN gsrcN y Hy_can Hy_sh Hy_fill Hy_ent shN_ok (ckey shN caN)
+                  (BR2_N [0] Hca0 (Hkey_0 HK Hl2') caN ER) (BR3_N [0] Hca0 (Hkey_0 HK Hl2') caN ER)
+                  shN_len caN HcaN (fun j => eq_refl)) as E.
+    rewrite Hcs, Hrs, (col_size_0 sh' Hl2'), (row_size_0 sh' Hl2'), Hfst in E. unfold sz. exact E.
+  Qed.
+
+  Lemma none_C : kc <> [] -> kr = [] -> post V c shN gsrcN (gcxs_getitem_nd V g ix).
+  Proof.
+    intros H1 H2. destruct (reinsert_shape [0] (caxes0_ok sh' Hl2')) as [caN ER].
+    assert (F : gcxs_getitem_nd V g ix
+                = tail_nd V g RW CL pos (fun nst => Z.of_nat nst)
+                    (fun ps ip => GGArr (mkGCXS shN caN (dat' g ps) (map (fun u => u mod sz) (row_numbers ip))
+                                                (indptr_of (map (fun u => u / sz) (row_numbers ip)) (hd 0 sh')) (g_fill g)))).
+    { commonN.
+      assert (E1 : negb match filter kept ca with [] => true | _ :: _ => false end = true) by (fold kc; destruct kc; [contradiction|reflexivity]).
+      fold kr. rewrite !E1, !H2. cbv beta iota zeta. cbn [negb]. cbv beta iota zeta. unfold sh' in ER. rewrite ER. rewrite shN_not1. reflexivity. }
+    rewrite F. rewrite (tail_eval V c ca Hc Hok Hca Hnd RW CL pos HRW_nd HCL_nd Hpos_nd) by reflexivity.
+    unfold dat'. rewrite g_data_eqN, g_fill_eqN.
+    destruct (CL_single H2) as [x Hx].
+    apply (none_0 _ _ caN (K_of_C H2) ER (Lo_fst_rows V c ca RW CL x Hx) eq_refl).
+  Qed.
+
+  Lemma none_U : kc = [] -> kr <> [] -> post V c shN gsrcN (gcxs_getitem_nd V g ix).
+  Proof.
+    intros H1 H2. destruct (reinsert_shape [0] (caxes0_ok sh' Hl2')) as [caN ER].
+    assert (F : gcxs_getitem_nd V g ix
+                = tail_nd V g RW CL pos (fun _ => 1)
+                    (fun ps ip => GGArr (mkGCXS shN caN (dat' g ps) (map (fun u => u mod sz) (ind' ps))
+                                                (indptr_of (map (fun u => u / sz) (ind' ps)) (hd 0 sh')) (g_fill g)))).
+    { commonN.
+      assert (E2 : negb match filter kept rest with [] => true | _ :: _ => false end = true) by (fold kr; destruct kr; [contradiction|reflexivity]).
+      fold kc. rewrite !E2, !H1. cbv beta iota zeta. cbn [negb]. cbv beta iota zeta. unfold sh' in ER. rewrite ER. rewrite shN_not1. reflexivity. }
+    rewrite F. destruct (RW_single H1) as [r Hr].
+    rewrite (tail_eval V c ca Hc Hok Hca Hnd RW CL pos HRW_nd HCL_nd Hpos_nd) by (cbv beta; rewrite Hr; reflexivity).
+    unfold dat', ind'. rewrite g_data_eqN, g_fill_eqN.
+    apply (none_0 _ _ caN (K_of_U H1) ER (Lo_fst_cols V c ca RW CL r Hr) eq_refl).
+  Qed.
+
+  Lemma nd_none_case : post V c (out_shape (map to_r key)) gsrcN (gcxs_getitem_nd V g ix).
+  Proof.
+    rewrite shN_eq.
+    destruct kc as [|a0 l0] eqn:Ekc, kr as [|a1 l1] eqn:Ekr.
+    - exfalso. apply K_nonempty. pose proof K_length as Hl. rewrite Ekc, Ekr in Hl. destruct K; [reflexivity|simpl in Hl; lia].
+    - apply none_U; [exact Ekc|rewrite Ekr; discriminate].
+    - apply none_C; [rewrite Ekc; discriminate|exact Ekr].
+    - apply none_M; [rewrite Ekc; discriminate|rewrite Ekr; discriminate].
+  Qed.
+  End WithNone.
 End Nd.
 
 (* ================================================================ all-integer indices *)
@@ -807,39 +1152,120 @@ Proof.
     repeat split; [lia|lia|exact E2|exact E3].
 Qed.
 
+(* ================================================================ the conditions on None, on the index as written *)
+(* an integer stands before a None (the code then inserts the new axis at the wrong place: D28) *)
+Fixpoint int_before_none (seen_int : bool) (ix : index) : bool :=
+  match ix with
+  | [] => false
+  | IInt _ :: r => int_before_none true r
+  | INone :: r => seen_int || int_before_none seen_int r
+  | _ :: r => int_before_none seen_int r
+  end.
+
+Definition keeps (e : ientry) : bool := consumes e && negb (is_iint e).
+
+(* at least two axes survive (with one the code builds a 2-d record without indptr: D27; with none it raises: D22) *)
+Definition kept_ge2 (sh : shape) (ix : index) : bool :=
+  match expand (Z.of_nat (length sh)) ix with
+  | Ok ex => (2 <=? length (filter keeps ex))%nat
+  | Raise _ => true
+  end.
+
+Lemma ibn_true_no_new ix : int_before_none true ix = false -> no_new ix = true.
+Proof.
+  induction ix as [|e r IH]; intros H; [reflexivity|]. destruct e; cbn [int_before_none] in H; try discriminate;
+    unfold no_new; cbn [forallb is_new negb]; apply IH; exact H.
+Qed.
+
+Lemma ibn_app_full seen ix k : int_before_none seen (ix ++ repeat full_slice k) = int_before_none seen ix.
+Proof.
+  revert seen. induction ix as [|e r IH]; intros seen.
+  - cbn [app]. induction k as [|k IHk]; [reflexivity|exact IHk].
+  - destruct e; cbn [app int_before_none]; rewrite ?IH; reflexivity.
+Qed.
+
+Lemma ibn_full_app seen k r : int_before_none seen (repeat full_slice k ++ r) = int_before_none seen r.
+Proof. induction k as [|k IH]; [reflexivity|exact IH]. Qed.
+
+Lemma ibn_subst seen k ix : int_before_none seen (subst_ellipsis (repeat full_slice k) ix) = int_before_none seen ix.
+Proof.
+  revert seen. induction ix as [|e r IH]; intros seen; [reflexivity|].
+  destruct e; cbn [subst_ellipsis int_before_none]; rewrite ?IH; try reflexivity. apply ibn_full_app.
+Qed.
+
+Lemma ibn_expand nd ix ex : expand nd ix = Ok ex -> int_before_none false ex = int_before_none false ix.
+Proof.
+  unfold expand. destruct (1 <? countb is_ell ix); [discriminate|].
+  destruct (nd - countb consumes ix <? 0); [discriminate|]. intros H. inversion H; subst ex. clear H.
+  destruct (0 <? countb is_ell ix); [apply ibn_subst|apply ibn_app_full].
+Qed.
+
+Lemma norm_none_ok ex : forall sh seen,
+  int_before_none seen ex = false -> fits ex sh = true -> shape_okb sh = true -> no_zero_step ex = true ->
+  none_ok (norm_all ex sh) = true.
+Proof.
+  induction ex as [|e r IH]; intros sh seen Hi Hf Hsh Hz; [reflexivity|].
+  simpl in Hz. apply andb_true_iff in Hz. destruct Hz as [Hze Hz].
+  destruct e; try discriminate.
+  - (* integer *)
+    destruct sh as [|d sh']; [discriminate|]. simpl in Hsh, Hf. apply andb_true_iff in Hsh. destruct Hsh as [Hd Hsh].
+    cbn [int_before_none] in Hi. cbn [norm_all nentry_spec none_ok].
+    apply (norm_all_not_none r sh' (ibn_true_no_new r Hi) Hf Hsh Hz).
+  - destruct sh as [|d sh']; [discriminate|]. simpl in Hsh, Hf. apply andb_true_iff in Hsh. destruct Hsh as [Hd Hsh].
+    cbn [int_before_none] in Hi. cbn [norm_all nentry_spec].
+    assert (Hc : c <> Some 0) by (intros ->; discriminate).
+    destruct (normalize_slice_ok a b c d ltac:(lia) Hc) as [s0 [e' [st [En _]]]].
+    unfold nslice_of. rewrite En. cbn [none_ok]. apply (IH sh' seen Hi Hf Hsh Hz).
+  - cbn [int_before_none] in Hi. apply orb_false_iff in Hi. destruct Hi as [_ Hi]. simpl in Hf.
+    cbn [norm_all none_ok]. apply (IH sh seen Hi Hf Hsh Hz).
+  - destruct sh as [|d sh']; [discriminate|]. simpl in Hsh, Hf. apply andb_true_iff in Hsh. destruct Hsh as [Hd Hsh].
+    cbn [int_before_none] in Hi. cbn [norm_all nentry_spec none_ok]. apply (IH sh' seen Hi Hf Hsh Hz).
+  - destruct sh as [|d sh']; [discriminate|]. simpl in Hsh, Hf. apply andb_true_iff in Hsh. destruct Hsh as [Hd Hsh].
+    cbn [int_before_none] in Hi. cbn [norm_all nentry_spec none_ok]. apply (IH sh' seen Hi Hf Hsh Hz).
+Qed.
+
+Lemma norm_kcnt ex : forall sh,
+  fits ex sh = true -> shape_okb sh = true -> no_zero_step ex = true ->
+  kcnt (norm_all ex sh) = length (filter keeps ex).
+Proof.
+  unfold kcnt. induction ex as [|e r IH]; intros sh Hf Hsh Hz; [reflexivity|].
+  simpl in Hz. apply andb_true_iff in Hz. destruct Hz as [Hze Hz].
+  destruct e; try discriminate.
+  - destruct sh as [|d sh']; [discriminate|]. simpl in Hsh, Hf. apply andb_true_iff in Hsh. destruct Hsh as [Hd Hsh].
+    cbn [norm_all nentry_spec filter is_keep keeps consumes is_iint negb andb]. apply (IH sh' Hf Hsh Hz).
+  - destruct sh as [|d sh']; [discriminate|]. simpl in Hsh, Hf. apply andb_true_iff in Hsh. destruct Hsh as [Hd Hsh].
+    cbn [norm_all nentry_spec].
+    assert (Hc : c <> Some 0) by (intros ->; discriminate).
+    destruct (normalize_slice_ok a b c d ltac:(lia) Hc) as [s0 [e' [st [En _]]]].
+    unfold nslice_of. rewrite En. cbn [filter is_keep keeps consumes is_iint negb andb length]. f_equal. apply (IH sh' Hf Hsh Hz).
+  - simpl in Hf. cbn [norm_all filter is_keep keeps consumes andb]. apply (IH sh Hf Hsh Hz).
+  - destruct sh as [|d sh']; [discriminate|]. simpl in Hsh, Hf. apply andb_true_iff in Hsh. destruct Hsh as [Hd Hsh].
+    cbn [norm_all nentry_spec filter is_keep keeps consumes is_iint negb andb length]. f_equal. apply (IH sh' Hf Hsh Hz).
+  - destruct sh as [|d sh']; [discriminate|]. simpl in Hsh, Hf. apply andb_true_iff in Hsh. destruct Hsh as [Hd Hsh].
+    cbn [norm_all nentry_spec filter is_keep keeps consumes is_iint negb andb length]. f_equal. apply (IH sh' Hf Hsh Hz).
+Qed.
+
 Section NdMain.
   Variable V : Type.
   Variable veqb : V -> V -> bool.
   Variable add : V -> V -> V.
 
-  Theorem gcxs_getitem_nd_proof (kf : nat -> nat) (c : coo V) (ca : list Z) (ix : index) :
+  (* from the COO theorem to the GCXS theorem, for a normalised index without None and with at most one array *)
+  Lemma nd_core (kf : nat -> nat) (c : coo V) (ca : list Z) (ix : index) (nix : list nentry) :
     canonical V c -> shape_ok (c_shape c) -> caxes_okb (Z.of_nat (length (c_shape c))) ca = true ->
     StronglySorted Z.lt ca -> (2 <= length (c_shape c))%nat ->
-    no_zero_step ix = true -> basic ix = true -> no_new ix = true ->
-    match np_index (c_shape c) ix with
-    | Raise e => gcxs_getitem V veqb add kf (gcxs_from_coo c ca) ix = Raise e /\ e = IndexError
-    | Ok (sh', gsrc) => post' V c sh' gsrc (gcxs_getitem V veqb add kf (gcxs_from_coo c ca) ix)
-    end.
+    normalize_index ix (c_shape c) = Ok nix -> nwf nix (c_shape c) -> forallb not_none nix = true -> (n_arr nix <= 1)%nat ->
+    match getitem kf c ix with
+    | Ok (GArr y) => yfacts V c y (out_shape (map to_r nix)) (src_of (map to_r nix))
+    | Ok (GScalar v) => out_shape (map to_r nix) = [] /\ v = den c (src_of (map to_r nix) [])
+    | Raise _ => False
+    end ->
+    post' V c (out_shape (map to_r nix)) (src_of (map to_r nix)) (gcxs_getitem_nd V (gcxs_from_coo c ca) ix).
   Proof.
-    intros Hc Hok Hca Hsorted Hnd Hz Hb Hnn. set (sh := c_shape c).
+    intros Hc Hok Hca Hsorted Hnd Hn Hwf Hno Hna HC. set (sh := c_shape c) in *.
     assert (Hshb : shape_okb sh = true) by (apply forallb_forall; intros d Hd; unfold shape_ok in Hok; rewrite Forall_forall in Hok; apply Z.leb_le, Hok, Hd).
     pose proof (from_coo_nf V c ca Hok Hca Hnd) as Hg.
     assert (Hgs : g_shape (gcxs_from_coo c ca) = sh) by (rewrite Hg; reflexivity).
-    assert (Hgi : gcxs_getitem V veqb add kf (gcxs_from_coo c ca) ix = gcxs_getitem_nd V (gcxs_from_coo c ca) ix).
-    { unfold gcxs_getitem. rewrite Hgs. unfold sh. destruct (c_shape c) as [|d0 [|d1 t]]; simpl in Hnd; try lia. reflexivity. }
-    rewrite Hgi. clear Hgi.
-    pose proof (coo_getitem_basic_strong V kf c ix Hc Hshb Hz Hb) as HC. fold sh in HC.
-    assert (Hd : d29_clause sh ix = true).
-    { unfold d29_clause. destruct (expand (Z.of_nat (length sh)) ix) as [ex|] eqn:E; [|reflexivity].
-      apply basic_bool_ok. eapply basic_expand; eauto. }
-    destruct (normalize_link sh ix Hshb Hz Hd) as [[ex [E [Hf [Hao [Hn Hr]]]]]|[Hn Hr]].
-    2: { rewrite np_index_eq, Hr. cbn [bind]. unfold gcxs_getitem_nd. rewrite Hgs. rewrite Hn. auto. }
-    set (nix := norm_all ex sh) in *.
-    assert (Hwf : nwf nix sh) by (apply norm_all_nwf; auto; eapply expand_nzs; eauto).
-    assert (Hna : no_arr nix = true) by (apply basic_norm_no_arr; eapply basic_expand; eauto).
-    assert (Hno : forallb not_none nix = true).
-    { apply norm_all_not_none; auto; [eapply no_new_expand; eauto|eapply expand_nzs; eauto]. }
-    rewrite (np_index_basic sh ix nix Hr Hna) in *.
     destruct (all_full nix sh) eqn:Haf.
     - (* the array itself *)
       assert (Eg : gcxs_getitem_nd V (gcxs_from_coo c ca) ix = Ok (GGArr (gcxs_from_coo c ca))).
@@ -860,11 +1286,191 @@ Section NdMain.
         rewrite Eg. split; [exact E3|reflexivity].
       + apply (post_post' V veqb add).
         destruct (getitem kf c ix) as [[v|y]|e].
-        * exfalso. destruct HC as [HC _]. pose proof (out_shape_nix V c ca Hca Hnd nix Hwf Hno Hna) as Ho.
+        * exfalso. destruct HC as [HC _].
+          assert (Ho : out_shape (map to_r nix) = sh' V c nix) by (eapply out_shape_nix; eassumption).
           rewrite HC in Ho. symmetry in Ho. apply map_eq_nil in Ho.
-          apply (K_nonempty V c nix Hwf Hno Hint). exact Ho.
+          eapply K_nonempty; [..|exact Ho]; eassumption.
         * eapply nd_array_case; eassumption.
         * destruct HC.
+  Qed.
+
+  Lemma getitem_nd_eq (kf : nat -> nat) (c : coo V) (ca : list Z) ix :
+    shape_ok (c_shape c) -> caxes_okb (Z.of_nat (length (c_shape c))) ca = true -> (2 <= length (c_shape c))%nat ->
+    gcxs_getitem V veqb add kf (gcxs_from_coo c ca) ix = gcxs_getitem_nd V (gcxs_from_coo c ca) ix
+    /\ g_shape (gcxs_from_coo c ca) = c_shape c.
+  Proof.
+    intros Hok Hca Hnd. pose proof (from_coo_nf V c ca Hok Hca Hnd) as Hg.
+    assert (Hgs : g_shape (gcxs_from_coo c ca) = c_shape c) by (rewrite Hg; reflexivity). split; [|exact Hgs].
+    unfold gcxs_getitem. rewrite Hgs. destruct (c_shape c) as [|d0 [|d1 t]]; simpl in Hnd; try lia. reflexivity.
+  Qed.
+
+  Lemma shape_ok_okb sh : shape_ok sh -> shape_okb sh = true.
+  Proof. intros Hok. apply forallb_forall. intros d Hd. unfold shape_ok in Hok. rewrite Forall_forall in Hok. apply Z.leb_le, Hok, Hd. Qed.
+
+  (* basic indices *)
+  Theorem gcxs_getitem_nd_proof (kf : nat -> nat) (c : coo V) (ca : list Z) (ix : index) :
+    canonical V c -> shape_ok (c_shape c) -> caxes_okb (Z.of_nat (length (c_shape c))) ca = true ->
+    StronglySorted Z.lt ca -> (2 <= length (c_shape c))%nat ->
+    no_zero_step ix = true -> basic ix = true -> no_new ix = true ->
+    match np_index (c_shape c) ix with
+    | Raise e => gcxs_getitem V veqb add kf (gcxs_from_coo c ca) ix = Raise e /\ e = IndexError
+    | Ok (sh', gsrc) => post' V c sh' gsrc (gcxs_getitem V veqb add kf (gcxs_from_coo c ca) ix)
+    end.
+  Proof.
+    intros Hc Hok Hca Hsorted Hnd Hz Hb Hnn. set (sh := c_shape c).
+    pose proof (shape_ok_okb sh Hok) as Hshb.
+    destruct (getitem_nd_eq kf c ca ix Hok Hca Hnd) as [Hgi Hgs]. rewrite Hgi. clear Hgi.
+    pose proof (coo_getitem_basic_strong V kf c ix Hc Hshb Hz Hb) as HC. fold sh in HC.
+    assert (Hd : d29_clause sh ix = true).
+    { unfold d29_clause. destruct (expand (Z.of_nat (length sh)) ix) as [ex|] eqn:E; [|reflexivity].
+      apply basic_bool_ok. eapply basic_expand; eauto. }
+    destruct (normalize_link sh ix Hshb Hz Hd) as [[ex [E [Hf [Hao [Hn Hr]]]]]|[Hn Hr]].
+    2: { rewrite np_index_eq, Hr. cbn [bind]. unfold gcxs_getitem_nd. rewrite Hgs. fold sh. rewrite Hn. auto. }
+    set (nix := norm_all ex sh) in *.
+    assert (Hwf : nwf nix sh) by (apply norm_all_nwf; auto; eapply expand_nzs; eauto).
+    assert (Hna : no_arr nix = true) by (apply basic_norm_no_arr; eapply basic_expand; eauto).
+    assert (Hno : forallb not_none nix = true).
+    { apply norm_all_not_none; auto; [eapply no_new_expand; eauto|eapply expand_nzs; eauto]. }
+    rewrite (np_index_basic sh ix nix Hr Hna) in *.
+    apply (nd_core kf c ca ix nix Hc Hok Hca Hsorted Hnd Hn Hwf Hno); [rewrite (no_arr_n_arr nix Hna); lia|].
+    destruct (getitem kf c ix) as [[v|y]|e]; exact HC.
+  Qed.
+
+  (* one index array (integer or boolean), the other entries basic *)
+  Theorem gcxs_getitem_nd_one_array_proof (kf : nat -> nat) (c : coo V) (ca : list Z) (ix : index) :
+    canonical V c -> shape_ok (c_shape c) -> caxes_okb (Z.of_nat (length (c_shape c))) ca = true ->
+    StronglySorted Z.lt ca -> (2 <= length (c_shape c))%nat ->
+    no_zero_step ix = true -> one_array ix = true -> d29_clause (c_shape c) ix = true -> no_new ix = true ->
+    match np_index (c_shape c) ix with
+    | Raise e => gcxs_getitem V veqb add kf (gcxs_from_coo c ca) ix = Raise e /\ e = IndexError
+    | Ok (sh', gsrc) => post' V c sh' gsrc (gcxs_getitem V veqb add kf (gcxs_from_coo c ca) ix)
+    end.
+  Proof.
+    intros Hc Hok Hca Hsorted Hnd Hz Hone Hd Hnn. set (sh := c_shape c) in *.
+    pose proof (shape_ok_okb sh Hok) as Hshb.
+    destruct (getitem_nd_eq kf c ca ix Hok Hca Hnd) as [Hgi Hgs]. rewrite Hgi. clear Hgi.
+    pose proof (coo_getitem_one_array_strong V kf c ix Hc Hshb Hz Hone Hd) as HC. fold sh in HC.
+    destruct (normalize_link sh ix Hshb Hz Hd) as [[ex [E [Hf [Hao [Hn Hr]]]]]|[Hn Hr]].
+    2: { rewrite np_index_eq, Hr. cbn [bind]. unfold gcxs_getitem_nd. rewrite Hgs. fold sh. rewrite Hn. auto. }
+    set (nix := norm_all ex sh) in *.
+    assert (Hwf : nwf nix sh) by (apply norm_all_nwf; auto; eapply expand_nzs; eauto).
+    assert (Hn1 : n_arr nix = 1%nat).
+    { pose proof (n_arr_norm ex sh Hf) as H. fold nix in H. rewrite (expand_count_arr _ _ _ E) in H.
+      unfold one_array in Hone. apply Z.eqb_eq in Hone. clear - H Hone. lia. }
+    assert (Hno : forallb not_none nix = true).
+    { apply norm_all_not_none; auto; [eapply no_new_expand; eauto|eapply expand_nzs; eauto]. }
+    destruct (one_arr_split nix Hn1) as [pre [l [post [Enix [Hpre Hpost]]]]].
+    assert (Enp : np_index sh ix = Ok (out_shape (map to_r nix), src_of (map to_r nix))).
+    { rewrite np_index_eq, Hr. cbn [bind]. rewrite Enix, (broadcast_one pre l post Hpre Hpost). reflexivity. }
+    rewrite Enp in *.
+    apply (nd_core kf c ca ix nix Hc Hok Hca Hsorted Hnd Hn Hwf Hno); [lia|].
+    destruct (getitem kf c ix) as [[v|y]|e]; exact HC.
+  Qed.
+
+  (* ---------------------------------------------------------------- every covered index class, None included *)
+  Definition gcxs_ix_class (sh : shape) (ix : index) : Prop :=
+    basic ix = true \/ (one_array ix = true /\ d29_clause sh ix = true).
+  Definition gcxs_none_cond (sh : shape) (ix : index) : Prop :=
+    no_new ix = true \/ (int_before_none false ix = false /\ kept_ge2 sh ix = true).
+
+  Lemma n_arr_filter key : n_arr (filter not_none key) = n_arr key.
+  Proof.
+    unfold n_arr. f_equal. induction key as [|e r IH]; [reflexivity|].
+    destruct e; cbn [filter not_none is_nnone negb is_narr]; rewrite ?IH; reflexivity.
+  Qed.
+
+  Lemma all_full_none key sh : forallb not_none key = false -> all_full key sh = false.
+  Proof.
+    intros Hnn. destruct (all_full key sh) eqn:Haf; [|reflexivity]. exfalso.
+    destruct (all_full_true key sh Haf) as [El Ef]. rewrite forallb_forall in Ef.
+    assert (Hex : exists e, In e key /\ not_none e = false).
+    { clear - Hnn. induction key as [|e r IH]; [discriminate|]. simpl in Hnn. destruct (not_none e) eqn:E.
+      - destruct (IH Hnn) as [e' [H1 H2]]. exists e'. split; [right; exact H1|exact H2].
+      - exists e. split; [left; reflexivity|exact E]. }
+    destruct Hex as [e [He Hne]]. destruct e; try discriminate.
+    destruct (In_nth _ _ NNone He) as [k [Hk Ek]].
+    assert (Hin : In (NNone, nth k sh 0) (combine key sh)).
+    { rewrite <- Ek. rewrite <- (combine_nth key sh k NNone 0 El). apply nth_In. rewrite combine_length, <- El, Nat.min_id. exact Hk. }
+    specialize (Ef _ Hin). discriminate.
+  Qed.
+
+  Theorem gcxs_getitem_nd_general_proof (kf : nat -> nat) (c : coo V) (ca : list Z) (ix : index) :
+    canonical V c -> shape_ok (c_shape c) -> caxes_okb (Z.of_nat (length (c_shape c))) ca = true ->
+    StronglySorted Z.lt ca -> (2 <= length (c_shape c))%nat ->
+    no_zero_step ix = true -> gcxs_ix_class (c_shape c) ix -> gcxs_none_cond (c_shape c) ix ->
+    match np_index (c_shape c) ix with
+    | Raise e => gcxs_getitem V veqb add kf (gcxs_from_coo c ca) ix = Raise e /\ e = IndexError
+    | Ok (sh', gsrc) => post' V c sh' gsrc (gcxs_getitem V veqb add kf (gcxs_from_coo c ca) ix)
+    end.
+  Proof.
+    intros Hc Hok Hca Hsorted Hnd Hz Hcls Hnone. set (sh := c_shape c) in *.
+    pose proof (shape_ok_okb sh Hok) as Hshb.
+    destruct (getitem_nd_eq kf c ca ix Hok Hca Hnd) as [Hgi Hgs]. rewrite Hgi. clear Hgi.
+    assert (Hd : d29_clause sh ix = true).
+    { destruct Hcls as [Hb|[_ Hd]]; [|exact Hd]. unfold d29_clause. destruct (expand (Z.of_nat (length sh)) ix) as [ex|] eqn:E; [|reflexivity].
+      apply basic_bool_ok. eapply basic_expand; eauto. }
+    assert (HC : match np_index sh ix with
+                 | Ok (sh', g0) =>
+                   match getitem kf c ix with
+                   | Ok (GScalar v) => sh' = [] /\ v = den c (g0 [])
+                   | Ok (GArr y) => yfacts V c y sh' g0
+                   | Raise _ => False
+                   end
+                 | Raise e => getitem kf c ix = Raise e /\ e = IndexError
+                 end).
+    { destruct Hcls as [Hb|[Hone _]].
+      - exact (coo_getitem_basic_strong V kf c ix Hc Hshb Hz Hb).
+      - exact (coo_getitem_one_array_strong V kf c ix Hc Hshb Hz Hone Hd). }
+    destruct (normalize_link sh ix Hshb Hz Hd) as [[ex [E [Hf [Hao [Hn Hr]]]]]|[Hn Hr]].
+    2: { rewrite np_index_eq, Hr. cbn [bind]. unfold gcxs_getitem_nd. rewrite Hgs. fold sh. rewrite Hn. auto. }
+    set (key := norm_all ex sh) in *.
+    assert (Hzx : no_zero_step ex = true) by (eapply expand_nzs; eauto).
+    assert (Hwfk : nwf key sh) by (apply norm_all_nwf; auto).
+    assert (HnaK : (n_arr key <= 1)%nat /\ np_index sh ix = Ok (out_shape (map to_r key), src_of (map to_r key))).
+    { destruct Hcls as [Hb|[Hone _]].
+      - assert (Hna : no_arr key = true) by (apply basic_norm_no_arr; eapply basic_expand; eauto).
+        split; [rewrite (no_arr_n_arr key Hna); lia|apply (np_index_basic sh ix key Hr Hna)].
+      - assert (Hn1 : n_arr key = 1%nat).
+        { pose proof (n_arr_norm ex sh Hf) as H. fold key in H. rewrite (expand_count_arr _ _ _ E) in H.
+          unfold one_array in Hone. apply Z.eqb_eq in Hone. clear - H Hone. lia. }
+        split; [lia|]. destruct (one_arr_split key Hn1) as [pre [l [post [Ekey [Hpre Hpost]]]]].
+        rewrite np_index_eq, Hr. cbn [bind]. rewrite Ekey, (broadcast_one pre l post Hpre Hpost). reflexivity. }
+    destruct HnaK as [HnaK Enp]. rewrite Enp in *.
+    destruct (forallb not_none key) eqn:Hnn.
+    - (* no None *)
+      apply (nd_core kf c ca ix key Hc Hok Hca Hsorted Hnd Hn Hwfk Hnn HnaK).
+      destruct (getitem kf c ix) as [[v|y]|e]; exact HC.
+    - (* None *)
+      destruct Hnone as [Hnew|[Hibn Hk2]].
+      { exfalso. assert (H : forallb not_none key = true); [|congruence].
+        apply norm_all_not_none; auto. eapply no_new_expand; eauto. }
+      set (nix := filter not_none key).
+      assert (Hwf : nwf nix sh) by (apply nwf_filter; exact Hwfk).
+      assert (Hno : forallb not_none nix = true) by apply filter_not_none_all.
+      assert (Hna : (n_arr nix <= 1)%nat) by (unfold nix; rewrite n_arr_filter; exact HnaK).
+      assert (Hnok : none_ok key = true).
+      { apply (norm_none_ok ex sh false); auto. rewrite (ibn_expand _ _ _ E). exact Hibn. }
+      assert (HK2 : (2 <= length (filter (fun e => negb (is_nint e)) nix))%nat).
+      { unfold kept_ge2 in Hk2. rewrite E in Hk2. apply Nat.leb_le in Hk2.
+        rewrite <- (norm_kcnt ex sh Hf Hshb Hzx) in Hk2. fold key in Hk2. rewrite kcnt_filter in Hk2. exact Hk2. }
+      assert (Hint : forallb is_nint nix = false).
+      { destruct (forallb is_nint nix) eqn:Ei; [|reflexivity]. exfalso. rewrite forallb_forall in Ei.
+        destruct (filter (fun e => negb (is_nint e)) nix) as [|e0 t] eqn:Efl; [simpl in HK2; lia|].
+        assert (He : In e0 (filter (fun e => negb (is_nint e)) nix)) by (rewrite Efl; left; reflexivity).
+        apply filter_In in He. destruct He as [He Hne]. rewrite (Ei e0 He) in Hne. discriminate. }
+      assert (HK2' : (2 <= length (K V c nix))%nat) by (erewrite K_len_filter; eassumption).
+      assert (HafN : all_full key sh = false) by (apply all_full_none; exact Hnn).
+      assert (HintN : forallb is_nint key = false).
+      { destruct (forallb is_nint key) eqn:Ei; [|reflexivity]. exfalso. rewrite forallb_forall in Ei.
+        assert (H : forallb not_none key = true); [|congruence]. apply forallb_forall. intros e He. specialize (Ei e He). destruct e; try discriminate; reflexivity. }
+      apply (post_post' V veqb add).
+      destruct (getitem kf c ix) as [[v|y]|e].
+      + exfalso. destruct HC as [HC _].
+        assert (Es : out_shape (map to_r key) = shN V c nix key) by (eapply shN_eq; try eassumption; reflexivity).
+        assert (Hl : (2 <= length (shN V c nix key))%nat) by (eapply shN_len; try eassumption; reflexivity).
+        rewrite <- Es, HC in Hl. simpl in Hl. lia.
+      + eapply nd_none_case; try eassumption. reflexivity.
+      + destruct HC.
   Qed.
 End NdMain.
 
